@@ -8,7 +8,16 @@ package cache
 // waiting.  Every stored instant of the answer entries and subtree cuts moves d into the
 // past; the denial-proof and failure caches read an injected clock that runs total ahead.
 
-import "time"
+import (
+	"hash/fnv"
+	"reflect"
+	"strings"
+	"time"
+
+	"github.com/miekg/dns"
+	internalcache "github.com/semihalev/sdns/internal/cache"
+	"github.com/semihalev/sdns/middleware"
+)
 
 // VC05Shift emulates a clock advance of d (total = sum of all advances so far, d included).
 func VC05Shift(c *Cache, d, total time.Duration) {
@@ -68,4 +77,177 @@ func VC05PrefetchIdle(c *Cache, limit time.Duration) bool {
 		}
 		time.Sleep(200 * time.Microsecond)
 	}
+}
+
+// ---------------------------------------------------------------------------------------------
+// C05 CaseChase: a read-only view of the alias chain a question would walk, hop by hop, taken
+// INDEPENDENTLY of collectWireChase (bodies are decoded with the library, the next hop is found from the
+// last alias record), next to what collectWireChase / composeWireChase really do on the same state.
+// Nothing is written, claimed, counted or queried upstream.
+
+// VC05Rec is one answer record in the abstract form of Chase.rrec: type, the (folded) alias target for a
+// CNAME, a digest of everything else (folded owner, class, RDATA in presentation form, lower-cased), TTL.
+type VC05Rec struct {
+	Type   uint16
+	Target string
+	Rest   uint64
+	TTL    uint32
+}
+
+func VC05RecOf(rr dns.RR) VC05Rec {
+	h := rr.Header()
+	out := VC05Rec{Type: h.Rrtype, TTL: h.Ttl}
+	if c, ok := rr.(*dns.CNAME); ok {
+		out.Target = strings.ToLower(c.Target)
+	}
+	cp := dns.Copy(rr)
+	cp.Header().Ttl = 0
+	f := fnv.New64a()
+	f.Write([]byte(strings.ToLower(cp.String())))
+	out.Rest = f.Sum64() >> 4 // fits a Coq N literal comfortably
+	return out
+}
+
+// VC05Hop is one entry on the chain as both paths see it for this question.
+type VC05Hop struct {
+	Asked        string // folded name the entry was looked up under (the question for hop 0, else the last alias target)
+	StoredName   string // folded owner of the stored question
+	Recs         []VC05Rec
+	NS, Extra    int
+	Rcode        int
+	AD           bool
+	Live         bool
+	TTL          uint32
+	WireOK       bool // wireServe&wireEligible != 0 and a body exists for the client's DO class
+	Recomposable bool
+	Due          bool
+}
+
+type VC05Chase struct {
+	Qtype, Qclass uint16
+	CD            bool
+	Hops          []VC05Hop // hop 0 = the entry of the question itself; the view follows the chain for up to 12 entries
+	// what the code did on this state
+	CodeOK   bool
+	CodeSegs []string  // folded stored names of the segments collectWireChase filled, in order
+	Composed []VC05Rec // records of composeWireChase's reply (decoded), when CodeOK
+	CompAD   bool
+	CompOK   bool
+	Stable   bool
+}
+
+// VC05ChaseView returns nil unless the cache holds, for the question in raw, an exact entry that
+// serveHitFromWire would hand to serveChaseHit (byte-eligible, not chase-safe).
+func VC05ChaseView(c *Cache, raw []byte, do bool) *VC05Chase {
+	v := vC05ChaseView(c, raw, do, true)
+	if v != nil {
+		// read the entries once more: a second boundary between the view and the code's own clock reading
+		// (or anything else that moved) makes the case incomparable, and the driver drops it
+		v2 := vC05ChaseView(c, raw, do, false)
+		v.Stable = v2 != nil && reflect.DeepEqual(v.Hops, v2.Hops)
+	}
+	return v
+}
+
+func vC05ChaseView(c *Cache, raw []byte, do bool, withCode bool) *VC05Chase {
+	if c == nil || c.store == nil {
+		return nil
+	}
+	var req middleware.Request
+	if !req.ParseWire(raw, time.Now(), nil) || !req.RD() || req.HasECS() {
+		return nil
+	}
+	qtype, qclass, cd := req.Qtype(), req.Qclass(), req.CD()
+	key, ok := internalcache.KeyWire(req.WireName(), qtype, qclass, cd)
+	if !ok {
+		return nil
+	}
+	alias := c.checkCache(key)
+	if alias == nil || !entryMatchesWire(alias, &req) || alias.wireServe&wireEligible == 0 || alias.wireServe&wireChaseSafe != 0 {
+		return nil
+	}
+	out := &VC05Chase{Qtype: qtype, Qclass: qclass, CD: cd}
+	now := time.Now()
+	qname, _, _ := dns.UnpackDomainName(req.WireName(), 0)
+	asked := strings.ToLower(qname)
+	entry := alias
+	for len(out.Hops) < 12 && entry != nil {
+		h := VC05Hop{Asked: asked, StoredName: strings.ToLower(entry.question.Name), Recomposable: true}
+		body, _ := entry.wireBodyFor(do)
+		h.WireOK = entry.wireServe&wireEligible != 0 && body != nil
+		rem := entry.remaining(now)
+		h.Live = rem > 0
+		if h.Live {
+			h.TTL = uint32(rem.Seconds())
+		}
+		h.Due = c.prefetchQueue != nil && entry.PrefetchEligible() && entry.ShouldPrefetch(c.config.Prefetch)
+		next := ""
+		hasQ := false
+		if body != nil {
+			m := new(dns.Msg)
+			if err := m.Unpack(body); err == nil {
+				h.Rcode, h.AD, h.NS, h.Extra = m.Rcode, m.AuthenticatedData, len(m.Ns), len(m.Extra)
+				for _, rr := range m.Answer {
+					r := VC05RecOf(rr)
+					r.TTL = 0
+					h.Recs = append(h.Recs, r)
+					if !wireRecomposable(rr.Header().Rrtype) {
+						h.Recomposable = false
+					}
+					if rr.Header().Rrtype == qtype {
+						hasQ = true
+					}
+					if cn, ok := rr.(*dns.CNAME); ok {
+						next = strings.ToLower(cn.Target)
+					}
+				}
+			} else {
+				h.WireOK = false
+			}
+		}
+		out.Hops = append(out.Hops, h)
+		if hasQ || next == "" {
+			break
+		}
+		wn := make([]byte, 256)
+		off, err := dns.PackDomainName(next, wn, 0, nil, false)
+		if err != nil {
+			break
+		}
+		k2, ok := internalcache.KeyWire(wn[:off], qtype, qclass, cd)
+		if !ok {
+			break
+		}
+		asked = next
+		entry = c.checkCache(k2)
+		if entry != nil && !entryMatchesWireQuestion(entry, wn[:off], qtype, qclass, cd) {
+			// a colliding entry: the walk treats it as absent; show it as an entry stored under another name
+			h2 := VC05Hop{Asked: asked, StoredName: strings.ToLower(entry.question.Name)}
+			out.Hops = append(out.Hops, h2)
+			break
+		}
+	}
+	if !withCode {
+		return out
+	}
+	// --- the code itself, on the same state
+	var segs [maxWireChaseHops]wireChaseSegment
+	n, okc := c.collectWireChase(&req, alias, do, segs[:])
+	out.CodeOK = okc
+	if okc {
+		for i := 0; i < n; i++ {
+			out.CodeSegs = append(out.CodeSegs, strings.ToLower(segs[i].entry.question.Name))
+		}
+		dst := make([]byte, 0, 16384)
+		if body, _, built := composeWireChase(dst, &req, alias, segs[:n]); built {
+			m := new(dns.Msg)
+			if err := m.Unpack(body); err == nil {
+				out.CompOK, out.CompAD = true, m.AuthenticatedData
+				for _, rr := range m.Answer {
+					out.Composed = append(out.Composed, VC05RecOf(rr))
+				}
+			}
+		}
+	}
+	return out
 }
